@@ -518,6 +518,8 @@ class Unit:
         self.expected = []    # function names that must appear in verus func-details
         self.props_of = {}    # item key -> list of property ids
         self._src_cache = {}
+        self.stub_keys = {}   # key -> reason: functions whose body left the verifier's reach; replaced by an assumed stub
+        self.stubbed = {}     # key -> {"reason":.., "props": [...]} actually stubbed in this generation
 
     # -- source access
     def src(self, path):
@@ -608,8 +610,27 @@ class Unit:
         it = rl.find_fn(path, src, blk, name)
         raw = it.text
         key = key or ("%s::%s" % (block or path, name))
-        text, apps = self._apply(raw, [r_attr, r_cfg] + list(rules), key)
+        stub_reason = self.stub_keys.get(key)
+        try:
+            text, apps = self._apply(raw, [r_attr, r_cfg] + list(rules), key)
+        except (LostAnchor, Unsupported) as e:
+            # the body no longer matches a rewrite rule: keep the signature + contract as an ASSUMED stub so that the
+            # rest of the unit (other properties) can still be decided; this function's properties become undecided
+            stub_reason = stub_reason or ("%s: %s" % (type(e).__name__, e))
+            text, apps = raw, []
+            for r in [r_attr, r_cfg] + list(rules):
+                ctx = Ctx(self, key)
+                try:
+                    text = r(text, ctx)
+                    apps += ctx.apps
+                except (LostAnchor, Unsupported):
+                    pass
         header, body = fn_split(text)
+        if stub_reason and body is not None:
+            body = "{ unimplemented!() }"
+            prefix = prefix + "#[verifier::external_body]\n    "
+            loops, proofs = None, None
+            self.stubbed[key] = {"reason": stub_reason[:400], "props": list(props or [])}
         for hr in header_rules:
             ctx = Ctx(self, key)
             header = hr(header, ctx)
@@ -621,7 +642,7 @@ class Unit:
         header = header.rstrip()
         self._gid = getattr(self, "_gid", 0) + 1
         meta = {"kind": "code", "key": key, "props": props or [], "src": path, "src_line": it.line,
-                "gid": self._gid, "fname": rename or name, "canary_ok": bool(spec) and not no_canary}
+                "gid": self._gid, "fname": rename or name, "canary_ok": bool(spec) and not no_canary and not stub_reason}
         self.chunks.append((prefix + header + "\n", dict(meta, kind="header")))
         if spec:
             # spec: str, or list of (text, props) pieces so that single clauses can be attributed to
@@ -641,7 +662,7 @@ class Unit:
             vpath = ("%s::" % m.group(1) if m else "") + (rename or name)
         self.functions.append({"item": key, "file": path, "line": it.line, "vpath": vpath,
                                "sha256": hashlib.sha256(raw.encode()).hexdigest(), "rules": apps, "kind": "fn",
-                               "has_contract": bool(spec), "props": props or [], "no_canary": no_canary})
+                               "has_contract": bool(spec), "props": props or [], "no_canary": no_canary or bool(stub_reason), "stubbed": stub_reason})
         if expect:
             self.expected.append(rename or name)
         return text
